@@ -9,6 +9,7 @@ from harness import core, pipe, pipecheck, pipeprops
 from harness.core import Failure, Result
 
 MANIFEST = dict(
+    pending="check runs (model lock-step + oracle) but its Coq theorems are still being proved; not claimed until coq/Props holds them",
     design_ref="DESIGN.md §6 C19",
     text="Typed path algebra over the emitter model (coq/Props/C19.v): every non-empty path of every emitted event is "
          "decode_tag(join(fsencode(root), names...)) with the watch path's tag; lock-step pipeline correspondence on the real "
